@@ -21,7 +21,7 @@ ANCHORS = ["npdataclasses.py::NpDataClass._assert_same_lens", "npdataclasses.py:
            "npdataclasses.py::NpDataClass.__iter__", "npdataclasses.py::NpDataClass.__array_function__", "npdataclasses.py::npdataclass.FinalClass.__eq__",
            "npdataclasses.py::NpDataClass.astype", "npdataclasses.py::VarLenArray.__array_function__", "npdataclasses.py::NpDataClass.__len__"]
 OPS = ["len", "badlen", "idx", "iter", "concat", "eq", "astype", "vla", "inherit"]
-FLOOR_TAGS = ["op:" + o for o in OPS] + ["idx:int", "idx:slice", "idx:list", "idx:mask", "idx:boollist", "idx:emptylist", "idx:range", "len:0", "fields:1", "fields:4",
+FLOOR_TAGS = ["op:" + o for o in OPS] + ["idx:int", "idx:slice", "idx:list", "idx:mask", "idx:boollist", "idx:emptylist", "idx:range", "field-rebound", "len:0", "fields:1", "fields:4",
                                          "astype:reordered", "astype:same-order", "eq:same", "eq:cell-differs", "eq:length-differs", "eq:shape-differs", "eq:length-differs-same-size", "field:2d", "field:float", "badlen:first", "badlen:other", "vla:fortran", "inherit:badlen", "inherit:eq", "inherit:idx"]
 FLOOR_MONITORS = ["c18:compare", "c18:aligned"]
 FP_STRICT = True       # a floating-point event inside the library that the dense computation does not have is a violation (shard.FpMonitor)
@@ -184,6 +184,14 @@ def run(case):
     msg = aligned(o, tags)
     if msg:
         return violated("%s: %s" % (desc0, msg), tags)
+    if case.get("rebind") is not None and op in ("idx", "iter", "concat", "eq", "len", "astype"):
+        # a field is re-bound to a new array of the same length after construction (t.score = t.score * 100): from then on every
+        # operation acts on the new column
+        i_rb = case["rebind"] % k
+        fs = list(fs)
+        fs[i_rb] = field(kinds[i_rb], i_rb, L, offset=7000)
+        setattr(o, names[i_rb], fs[i_rb].copy())
+        tags.append("field-rebound")
 
     def check_obj(res, exp_fields, what):
         if not dataclasses.is_dataclass(res):
@@ -321,6 +329,8 @@ def gen_case(rng, tier, op=None, k=None, L=None):
     L = rng.randint(0, 7) if L is None else L
     kinds = [rng.choice(["1d", "2d", "f", "2dF"]) for _ in range(k)]
     c = {"op": op, "kinds": kinds, "L": L}
+    if rng.random() < 0.12:
+        c["rebind"] = rng.randrange(8)
     if op == "badlen":
         if k < 2:
             c["kinds"] = kinds = kinds + ["1d"]
